@@ -26,7 +26,8 @@ RULE = ("pairs/triples of pool documents with different palettes and shapes, eac
 ASSUMPTIONS = ["threads are only switched at Python function entries inside src/rtflite (points where CPython "
                "may switch threads anyway); finer-grained (bytecode-level) preemption is not explored",
                "exactly one worker thread runs at a time (baton), so the monitor's own state cannot race"]
-DECIDING = ["schedules_run", "preemptions_taken", "thread_results_compared", "shared_state_ops_seen"]
+DECIDING = ["schedules_run", "preemptions_taken", "thread_results_compared", "shared_state_ops_seen",
+            "cold_start_schedules"]
 FLOOR = {"quick": 1500, "thorough": 20000}
 EXHAUSTIVE_NOTE = {"quick": "every single-preemption schedule of pair (col_a, col_b), both directions",
                    "thorough": "every single-preemption schedule of 5 pairs, both directions"}
@@ -46,6 +47,10 @@ def plan(tier, seed):
     for pi, pair in enumerate(pairs):
         for i in range(k):
             descs.append({"kind": "single", "docs": list(pair), "lo": i, "step": k, "timeout": 1800})
+    cold = COLD_PAIRS[:2] if tier == "quick" else COLD_PAIRS
+    for pair in cold:
+        for i in range(5):
+            descs.append({"kind": "cold", "docs": list(pair), "lo": i, "step": 5, "timeout": 1800})
     nrand = 400 if tier == "quick" else 20000
     for i in range(4 if tier == "quick" else 16):
         descs.append({"kind": "sampled", "n": nrand // (4 if tier == "quick" else 16), "timeout": 1800})
@@ -159,7 +164,131 @@ def run_schedule(ctx, env, names, plan, first, label):
                           case, {"preemptions": where, "thread": i})
 
 
+COLD_PAIRS = [("col_a", "pageby"), ("subline", "col_b"), ("pageby", "multi_a"), ("figure", "subline")]
+COLD_BOUNDARIES = 70
+
+
+def _cold_child(argv):
+    """entry point of a FRESH interpreter: python -m rtfmon.props.c15 --cold <mode> <names> [me k]"""
+    import json
+    import sys
+    import tempfile
+    from ..run import use_repo
+    use_repo()
+    import rtflite
+    mode, names = argv[0], argv[1].split(",")
+    # import every submodule up front: a thread parked by the scheduler while it holds the import
+    # lock (lazy `from .encoding import ...` inside rtf_encode) would block the other thread for
+    # good - an interleaving real CPython cannot have.  Importing is not encoding: registries stay cold.
+    import importlib
+    import pkgutil
+    for m in pkgutil.walk_packages(rtflite.__path__, "rtflite."):
+        try:
+            importlib.import_module(m.name)
+        except Exception:
+            pass
+    td = tempfile.mkdtemp(prefix="rtfmon-c15cold-")
+    docs = {n: S.build(c14.POOL[n], td) for n in names}       # construction only, nothing encoded yet
+
+    def encode_fn(n):
+        def fn():
+            with contextlib.redirect_stdout(io.StringIO()):
+                return docs[n].rtf_encode()
+        return fn
+    if mode == "solo":
+        out = {}
+        for n in names:
+            try:
+                out[n] = ["ok", encode_fn(n)()]
+            except Exception as e:  # noqa
+                out[n] = ["exc", type(e).__name__ + ": " + str(e)[:200]]
+    else:
+        me, k = int(argv[2]), int(argv[3])
+        from ..sched import Scheduler
+        sch = Scheduler(os.path.dirname(rtflite.__file__))
+        jobs = {f"T{i}:{n}": encode_fn(n) for i, n in enumerate(names)}
+        keys = list(jobs)
+        res, fin = sch.run(jobs, {keys[me]: {k: keys[1 - me]}}, keys[me], timeout=15)
+        out = {"res": {kk: list(v) for kk, v in res.items()}, "finished": fin,
+               "taken": [(t[0], t[1], t[2] + ":" + t[3]) for t in sch.taken]}
+    import shutil
+    shutil.rmtree(td, ignore_errors=True)
+    sys.stdout.write("\nRESULT:" + json.dumps(out) + "\n")
+    sys.stdout.flush()
+    os._exit(0)
+
+
+def _fresh(args, timeout=150):
+    import json
+    import subprocess
+    from ..run import HERE, PY
+    env = dict(os.environ, PYTHONHASHSEED="0", POLARS_MAX_THREADS="1",
+               PYTHONPATH=HERE + os.pathsep + os.environ.get("PYTHONPATH", ""))
+    try:
+        p = subprocess.run([PY, "-m", "rtfmon.props.c15", "--cold"] + [str(a) for a in args], cwd=HERE, env=env,
+                           stdout=subprocess.PIPE, stderr=subprocess.PIPE, timeout=timeout)
+    except subprocess.TimeoutExpired:
+        return None
+    for line in p.stdout.decode("utf-8", "replace").splitlines():
+        if line.startswith("RESULT:"):
+            return json.loads(line[7:])
+    return {"crash": p.stderr.decode("utf-8", "replace")[-400:]}
+
+
+def run_cold_one(ctx, names, me, k):
+    want = _fresh(["solo", ",".join(names)])
+    out = _fresh(["sched", ",".join(names), me, k])
+    case = {"docs": names, "cold_start": True, "preempt_thread": me, "boundary": k}
+    ctx.case(case, True)
+    if not want or not out or "crash" in want or "crash" in out:
+        ctx.notes.append("cold replay could not run")
+        return
+    for i, n in enumerate(names):
+        got = out["res"].get(f"T{i}:{n}")
+        if got != want[n]:
+            ctx.violation(f"cold start: thread encoding {n} returned {str(got)[:90]} instead of its solo result",
+                          case, {"taken": out["taken"]})
+
+
+def run_cold(ctx, desc):
+    """schedules that start in an interpreter which has NEVER encoded before: one-time initialisation
+    (registries, lazily built tables) is then inside the window that can be preempted"""
+    names = desc["docs"]
+    want = _fresh(["solo", ",".join(names)])
+    if not want or "crash" in want:
+        ctx.notes.append("cold solo baseline failed: " + str(want)[:300])
+        ctx.count("shard_crashed")
+        return
+    jobs = [(me, k) for me in (0, 1) for k in range(1, COLD_BOUNDARIES + 1)]
+    for me, k in jobs[desc["lo"]::desc["step"]]:
+        out = _fresh(["sched", ",".join(names), me, k])
+        case = {"docs": names, "cold_start": True, "preempt_thread": me, "boundary": k}
+        ctx.count("schedules_run")
+        ctx.count("cold_start_schedules")
+        if out is None or "crash" in out or not out.get("finished"):
+            ctx.count("schedule_watchdog_fired")
+            if out and "crash" in out:
+                ctx.notes.append("cold child: " + out["crash"][-200:])
+            ctx.case(case, False)
+            continue
+        ctx.case(case, bool(out["taken"]))
+        ctx.sample({"case": case, "preemptions_taken": out["taken"]}, limit=4)
+        ctx.count("preemptions_taken", len(out["taken"]))
+        for t in out["taken"]:
+            ctx.distinct("preemption_sites", t[2])
+        for i, n in enumerate(names):
+            ctx.count("thread_results_compared")
+            got = out["res"].get(f"T{i}:{n}")
+            if got != want[n]:
+                ctx.violation(f"cold start: thread encoding {n} returned {str(got)[:90]} instead of its solo "
+                              f"result {str(want[n])[:60]} (other thread: {names[1 - i]}, preempted at "
+                              f"{out['taken']})", case, {"taken": out["taken"]})
+
+
 def run_shard(desc, ctx):
+    if desc.get("kind") == "cold":
+        run_cold(ctx, desc)
+        return
     rng = random.Random(desc["seed"])
     env = Env()
     try:
@@ -200,6 +329,10 @@ def run_shard(desc, ctx):
 
 def replay(data, ctx):
     case = data["case"]
+    if case.get("cold_start"):
+        global COLD_BOUNDARIES
+        run_cold_one(ctx, case["docs"], case["preempt_thread"], case["boundary"])
+        return
     env = Env()
     try:
         env.prepare(case["docs"])
@@ -207,3 +340,9 @@ def replay(data, ctx):
         run_schedule(ctx, env, case["docs"], plan, case["first"], "replay")
     finally:
         env.close()
+
+
+if __name__ == "__main__":
+    import sys
+    if len(sys.argv) > 2 and sys.argv[1] == "--cold":
+        _cold_child(sys.argv[2:])
